@@ -17,7 +17,8 @@
 (* initial state.  The model keeps exactly the                             *)
 (* bookkeeping the code keeps and decides from it the way the code does:   *)
 (*   objs[o]     the storage objects (o = 1, 2; the second one only for    *)
-(*               the movable reusable_storage): ptr / cap = _ptr/_capacity *)
+(*               the classes that are movable and carry state, see         *)
+(*               Movable): ptr / cap = _ptr/_capacity                      *)
 (*               (buffer: the vector's block and size() in bytes; stack:   *)
 (*               the shared size_t `_state` (cap); placement: the size of  *)
 (*               the buffer the user handed over), inv = the frame whose   *)
@@ -37,6 +38,13 @@
 (* the policy's trailer is the real number of bytes (8 owner pointer,      *)
 (* 1 flag byte, sizeof(T)); the replayer maps the compiler-chosen frame    *)
 (* sizes of its three body shapes to 100/200/300.                          *)
+(*                                                                         *)
+(* Between two frames (nothing alive) storage objects are constructed,     *)
+(* move-constructed, move-assigned and destroyed (NewObj, MoveCtor,        *)
+(* MoveAssign, Drop) and the owner of reusable_buffer_storage's vector     *)
+(* resizes, shrinks, empties, moves out or swaps it (Owner...): whatever   *)
+(* happened, the next frame fits its memory, (block, capacity) travel      *)
+(* together and every block is released exactly once.                      *)
 (*                                                                         *)
 (* Grain: "call"   a coroutine creation / completion is one action         *)
 (*        "atomic" the instrumented atomic operations on _busy are the     *)
@@ -98,7 +106,9 @@ Trailer == ExtraSz + BaseTrailer      \* everything that lies behind the frame: 
 MaxLive == IF Policy \in {"default", "mtsafe", "stack"} THEN MaxOverlap ELSE 1
 MaxFrames == IF Ex THEN MaxCreateEx ELSE MaxCreate
 InitChoices(p) == CASE p = "stack" -> StackInits [] p = "buffer" -> BufferInits [] p = "placement" -> PlaceInits [] OTHER -> {0}
-Movable == Policy = "reusable" /\ Cardinality(Threads) = 1   \* reusable_storage has move construction / assignment
+(* storage classes with move construction / assignment whose objects carry state: reusable_storage (block and
+   capacity) and, under the attached-object layer, also the stateless default_storage (factory, inventory) *)
+Movable == (Policy = "reusable" \/ (Policy = "default" /\ Ex)) /\ Cardinality(Threads) = 1
 
 Sz(c) == 100 * c
 Req(c) == Sz(c) + Trailer             \* bytes a frame of class c needs, everything included
